@@ -22,6 +22,7 @@ import (
 	"github.com/prometheus/alertmanager/cluster/clusterpb"
 
 	"verifharness/appsys"
+	"verifharness/tlsrestart"
 	"verifharness/vh"
 )
 
@@ -30,13 +31,14 @@ const threshold = cluster.MaxGossipPacketSize / 2
 // ---------- replayable form of a case ----------
 
 type Case struct {
-	Kind   string      `json:"kind"` // chan | wire | deleg | mesh
-	Chan   *ChanCase   `json:"chan,omitempty"`
-	Wire   *WireCase   `json:"wire,omitempty"`
-	Deleg  *DelegCase  `json:"deleg,omitempty"`
-	Member *MemberCase `json:"member,omitempty"`
-	Frame  *FrameCase  `json:"frame,omitempty"`
-	Queue  *QueueCase  `json:"queue,omitempty"`
+	Kind   string               `json:"kind"` // chan | wire | deleg | mesh
+	Chan   *ChanCase            `json:"chan,omitempty"`
+	Wire   *WireCase            `json:"wire,omitempty"`
+	Deleg  *DelegCase           `json:"deleg,omitempty"`
+	Member *MemberCase          `json:"member,omitempty"`
+	Frame  *FrameCase           `json:"frame,omitempty"`
+	Queue  *QueueCase           `json:"queue,omitempty"`
+	TLS    *tlsrestart.Scenario `json:"tls,omitempty"`
 }
 
 type ChanOp struct {
@@ -662,6 +664,11 @@ func genBackToBack(r *vh.Rand) *ChanCase {
 	return c
 }
 
+func genTLSRestart(r *vh.Rand, idx int) *tlsrestart.Scenario {
+	kinds := []string{"restart", "restart-sends-while-down", "remote-closes-connection"}
+	return &tlsrestart.Scenario{Kind: kinds[idx%3], Pre: r.Range(1, 3), DownMs: vh.Pick(r, []int{0, 20, 100}), After: 24, IntervalMs: 15, Size: vh.Pick(r, []int{40, 200, 1200})}
+}
+
 func genWire(r *vh.Rand, thorough bool) *WireCase {
 	c := &WireCase{}
 	sizes := []int{0, 1, 2, 126, 127, 128, 129, 300, 692, 693, 700, 701}
@@ -711,6 +718,9 @@ func TestCheck(t *testing.T) {
 		for i := 0; i < env.N(12, 5); i++ {
 			cases = append(cases, Case{Kind: "queue", Queue: genQueue(r.Fork())})
 		}
+		for i := 0; i < env.N(4, 3); i++ {
+			cases = append(cases, Case{Kind: "tlsrestart", TLS: genTLSRestart(r.Fork(), i)})
+		}
 		for i := 0; i < env.N(3, 3); i++ {
 			cases = append(cases, Case{Kind: "frame", Frame: genFrame(r.Fork())})
 		}
@@ -755,6 +765,22 @@ func TestCheck(t *testing.T) {
 		case "frame":
 			term, viols, tags = runFrame(t, c.Frame)
 			nontrivial = true
+		case "tlsrestart":
+			// judged part, no model case: the real TLSTransport (connection pool) against a peer endpoint restarted on the
+			// same address / closing the pooled connection: after the event every later packet must arrive (at most the
+			// ones in flight while the dead connection is discovered are lost)
+			o := tlsrestart.Run(*c.TLS)
+			tags = map[string]int{c.TLS.Kind: 1}
+			switch {
+			case o.Skipped != "":
+				tags["skipped: "+o.Skipped] = 1
+			case !o.TailArrived:
+				viols = append(viols, vh.Violation{Key: "tls-packets-lost-after-peer-restart",
+					What: fmt.Sprintf("%s: %d packets sent after the event (%d WriteTo calls returned nil), only %d arrived and the second half did not arrive completely; last error: %s", c.TLS.Kind, o.AfterSent, o.AfterOK, o.AfterArrived, o.LastErr),
+					Case: *c})
+			default:
+				tags[fmt.Sprintf("lost-while-dead-connection-was-discovered=%d", o.AfterSent-o.AfterArrived)] = 1
+			}
 		case "queue":
 			var terms []string
 			terms, viols, tags = runQueue(t, c.Queue)
